@@ -1785,6 +1785,13 @@ func (u *Unit) binop(f *Frame, st *State, op token.Token, a, b Val, resTy types.
 	arith := func(t string) string {
 		if uns && u.nowrap {
 			// the unit claims that unsigned arithmetic never wraps: prove it, then use the plain value
+			if u.con != nil && u.con.NoWrapAssumed {
+				if !u.extUsed["nowrap-assumed"] {
+					u.extUsed["nowrap-assumed"] = true
+					u.em.assumes = append(u.em.assumes, "unsigned machine arithmetic treated as mathematical (no wrap-around) in "+u.unitName())
+				}
+				return t
+			}
 			if f != nil && !f.pure {
 				n := u.em.define("uw", "Int", t)
 				u.oblige(f, st, "wrap", u.exprText(pos, op.String()), fmt.Sprintf("(and (<= 0 %s) (< %s %s))", n, n, w), pos)
